@@ -172,6 +172,7 @@ func (f *Frame) execAppend(res *ssa.Call, c *ssa.CallCommon, args []Val) {
 	o := ex.alloc(f.st, heap, res)
 	o.inner = prov.closure()
 	ex.writeObj(f.st, heap, o.addr, newArr)
+	ex.assume("(trig (Slice.len " + s.T + "))") // the index of the first appended element, for index-quantified specifications
 	ncap := ex.decl(f.pfx+"cap", "Int")
 	nlen := "(+ (Slice.len " + s.T + ") " + n + ")"
 	ex.assume("(and (<= " + nlen + " " + ncap + ") (<= " + ncap + " 72057594037927936))")
